@@ -231,17 +231,16 @@ Qed.
 (* a dominating verdict covers the whole subtree                           *)
 (* ====================================================================== *)
 Definition extc (f : str -> bool) : Prop :=
-  forall s t, nonl t -> f s = true -> f (s ++ t) = true.
+  forall s t, f s = true -> f (s ++ t) = true.
 
 Lemma nonl_app a b : nonl (a ++ b) <-> nonl a /\ nonl b.
 Proof. unfold nonl. rewrite in_app_iff. tauto. Qed.
 
 Lemma extc_tokens ts : extc (tmatch (ts ++ [TDSE])).
 Proof.
-  induction ts as [|t ts IH]; intros s u Hu H.
-  - cbn in *. apply dse_go_spec in H as (a & b & -> & Ha & Hb). destruct b; [|discriminate].
-    apply dse_go_spec. exists (a ++ [] ++ u), []. rewrite !app_nil_r. repeat split; auto.
-    apply nonl_app. auto.
+  induction ts as [|t ts IH]; intros s u H.
+  - cbn in *. apply dse_go_spec in H as (a & b & -> & Hb). destruct b; [|discriminate].
+    apply dse_go_spec. exists (a ++ [] ++ u), []. rewrite !app_nil_r. auto.
   - destruct t; cbn [app tmatch] in *.
     + destruct s as [|x s]; [discriminate|]. cbn [app]. rewrite andl_spec in *. apply andb_true_iff in H as [Hx H]. rewrite Hx. now apply IH.
     + destruct s as [|x s]; [discriminate|]. cbn [app]. rewrite andl_spec in *. apply andb_true_iff in H as [Hx H]. rewrite Hx. now apply IH.
@@ -250,10 +249,10 @@ Proof.
     + destruct s as [|x s]; [discriminate|]. cbn [app]. rewrite andl_spec in *. apply andb_true_iff in H as [Hx H]. rewrite Hx. now apply IH.
     + rewrite orl_spec in *. apply orb_true_iff in H as [H|H]; apply orb_true_iff.
       * left. now apply IH.
-      * right. apply dss_go_spec in H as (a & b & -> & Ha & Hb). apply dss_go_spec.
-        exists a, (b ++ u). rewrite <- app_assoc. repeat split; auto.
-    + apply dse_go_spec in H as (a & b & -> & Ha & Hb). apply dse_go_spec.
-      exists a, (b ++ u). rewrite app_assoc. repeat split; auto.
+      * right. apply dss_go_spec in H as (a & b & -> & Hb). apply dss_go_spec.
+        exists a, (b ++ u). rewrite <- app_assoc. split; auto.
+    + apply dse_go_spec in H as (a & b & -> & Hb). apply dse_go_spec.
+      exists a, (b ++ u). rewrite app_assoc. split; auto.
     + discriminate.
 Qed.
 
@@ -295,12 +294,12 @@ Proof.
     exists pre, r, (post ++ [x]). rewrite <- app_assoc. auto.
 Qed.
 
-Theorem dominating_sound rules d :
+Theorem dominating_sound_all rules d :
   flags_sound rules -> (forall r, In r rules -> rule_ok r) ->
   excludes rules d = (true, true) ->
-  forall t, nonl t -> fst (excludes rules (d ++ t)) = true.
+  forall t, fst (excludes rules (d ++ t)) = true.
 Proof.
-  intros Hfs Hok H t Ht.
+  intros Hfs Hok H t.
   destruct (dominating_decompose rules d H) as (pre & r & post & -> & Hm & Hn & Hna & Hsuf).
   assert (Hpost : forall x, In x post -> r_neg x = false).
   { intros x Hx. destruct (r_neg x) eqn:E; [|reflexivity].
@@ -312,6 +311,14 @@ Proof.
     unfold rule_match in *. rewrite Hts in *. now apply extc_tokens. }
   rewrite Hm'. cbn. now rewrite Hn.
 Qed.
+
+(* as stated when "." did not match a newline (kept for its users) *)
+Theorem dominating_sound rules d :
+  flags_sound rules -> (forall r, In r rules -> rule_ok r) ->
+  excludes rules d = (true, true) ->
+  forall t, nonl t -> fst (excludes rules (d ++ t)) = true.
+Proof. intros Hfs Hok H t _. now apply dominating_sound_all. Qed.
+
 
 (* a decidable form of rule_ok, evaluated on every rule of the documented
    language that the correspondence stream sees *)
